@@ -406,7 +406,7 @@ class Builder:
                 how = (len(self.script) // 2) % 3 if ttl else 0
                 o1, o2 = ((o1x + [ep], []), (o1x, [ep]), ([ep], [refwire.opt_loadbal(1, 1)] + o1x))[how] if ttl else (o1x, [])
                 ents.append(net.offer(s[0], s[1], s[2], s[3], ttl, o1=o1, o2=o2))
-            a["data"] = net.sd_bytes(ents, sid, reboot=flag)
+            a["data"] = net.sd_bytes(net.with_riders(ents, len(self.script) // 3), sid, reboot=flag)
             # light deadline model (expiries only matter for placement)
             for k in [k for k, d in self.deadlines.items() if d != math.inf and d < t - RES]:
                 del self.deadlines[k]
